@@ -407,6 +407,9 @@ def check(obs, line):
                     hits.append(("not-exactly-once", f"message {k} (rc {rc}, qos {obs['qos'][k]}) appears {n} times on the wire across a reconnect"))
                 if accepted and obs["qos"][k] > 0 and obs["published"][k] is not True:
                     hits.append(("not-completed", f"message {k} never completed"))
+                if rc == 0 and obs["qos"][k] == 0 and obs["published"][k] is not True:
+                    # an accepted QoS 0 message is either written (published) or reported lost by reconnect()
+                    hits.append(("qos0-never-resolved", f"QoS 0 message {k} was accepted (rc 0) but is neither published nor reported lost: wait_for_publish() would hang"))
                 continue
             if accepted and n != 1:
                 hits.append(("not-exactly-once", f"message {k} (rc {rc}) appears {n} times on the wire"))
